@@ -61,6 +61,8 @@ SaveOut saveNif(NifFile& nif, const SaveSpec& spec) {
 	std::ostream os(&ob);
 	NifSaveOptions o;
 	if (spec.raw) { o.optimize = false; o.sortBlocks = false; }
+	else if (simSaveOptions() == 1) o.sortBlocks = false;
+	else if (simSaveOptions() == 2) o.optimize = false;
 	if (spec.map) {
 		WriteHookCtx hc{spec.map, &ob};
 		HookScope hs(&hc);
